@@ -252,6 +252,8 @@ def to_coq(ast, env):
             return "(Z.modulo (%s + 2 ^ %d) (2 ^ %d) - 2 ^ %d)" % (inner, b - 1, b, b - 1)
         if ty.endswith('*') or ty in ('bool',):
             return inner
+        if ty in getattr(env, 'typemods', {}):      # template type parameter: cast = reduction modulo the given Coq term
+            return "(Z.modulo %s %s)" % (inner, env.typemods[ty])
         raise ParseError("unsupported cast to %r" % ty)
     if k == 'un':
         op = ast[1]
